@@ -202,7 +202,7 @@ pub fn expanded_bit_depth_to_8(png: &PngImage) -> Option<PngImage> {
     let ppb = 8 / bit_depth;
     let is_gray = matches!(png.ihdr.color_type, ColorType::Grayscale { .. });
 
-    let mut reduced = Vec::with_capacity((png.ihdr.width * png.ihdr.height) as usize);
+    let mut reduced = Vec::with_capacity(png.ihdr.width as usize * png.ihdr.height as usize);
     let mut length = 0;
     let mask = (1 << bit_depth) - 1;
     for line in png.scan_lines(false) {
